@@ -165,7 +165,7 @@ impl Ctx {
             choices.push(17);
         }
         if kind == Kind::Bump {
-            choices.extend_from_slice(&[23, 24, 24]);
+            choices.extend_from_slice(&[23, 24, 24, 25, 25, 26]);
         }
         if kind == Kind::Rev {
             choices = vec![2, 3, 4, 4, 5, 5, 6, 6, 7, 7, 7, 8, 8, 8, 9, 9, 10, 10, 13, 15, 15, 16, 17, 20, 21];
@@ -299,6 +299,43 @@ impl Ctx {
                 Op::DedupByKey
             }
             23 => Op::ShrinkToFit,
+            25 => {
+                // below the length / between length and capacity / at and above the capacity
+                let cap = cap.min(len + 24); // (zero-sized elements: capacity usize::MAX)
+                let n = match self.rng.below(6) {
+                    0 => self.rng.below(len as u64 + 1) as usize,
+                    1 | 2 | 3 => len + self.rng.below((cap.saturating_sub(len)) as u64 + 1) as usize,
+                    4 => cap,
+                    _ => cap + 1 + self.rng.below(4) as usize,
+                };
+                self.count(if n < len { "shrink_to:below len" } else if n < cap { "shrink_to:between len and cap" } else { "shrink_to:at or above cap (nothing to do)" });
+                Op::ShrinkTo(n)
+            }
+            26 => {
+                let n = self.rng.below(5) as usize;
+                let ids: Vec<u64> = (0..n).map(|_| self.fresh()).collect();
+                let hint = match self.rng.below(3) {
+                    0 => self.rng.below(3) as usize,
+                    _ => 1_000_000,
+                };
+                let lie: Option<usize> = if self.rng.chance(1, 3) {
+                    Some(match self.rng.below(4) {
+                        0 => n + 1 + self.rng.below(4) as usize,
+                        1 => self.rng.below(3) as usize,
+                        2 => 1usize << 62,
+                        _ => isize::MAX as usize,
+                    })
+                } else {
+                    None
+                };
+                self.count(match lie {
+                    None => if hint < n { "extend_iter:under-reporting" } else { "extend_iter:exact" },
+                    Some(l) if l >= 1usize << 62 => "extend_iter:lie, capacity overflow",
+                    Some(l) if l > n => "extend_iter:lie, over-report",
+                    Some(_) => "extend_iter:lie, small",
+                });
+                Op::ExtendIter(ids, hint, lie)
+            }
             _ => {
                 let (s, e) = match self.rng.below(10) {
                     0 => (0, len + 1),
@@ -317,8 +354,35 @@ impl Ctx {
                     1 => self.rng.below(3) as usize,
                     _ => 1_000_000,
                 };
+                // a lying source now and then: a harmless over-report, a fixed small number, or a number whose
+                // reservation cannot have a layout ("capacity overflow"; anything in between would make the real
+                // allocator try — and `panic-on-alloc` abort on failure — so it is never generated)
+                let lie_den = match self.profile.as_str() {
+                    "drops" | "deep" => 3,
+                    _ => 5,
+                };
+                let lie: Option<usize> = if self.rng.chance(1, lie_den) {
+                    Some(match self.rng.below(6) {
+                        0 => n + 1 + self.rng.below(4) as usize,
+                        1 => self.rng.below(3) as usize,
+                        2 => 1usize << 62,
+                        _ => isize::MAX as usize,
+                    })
+                } else {
+                    None
+                };
                 // which part of `Splice::drop` this input reaches (range ok, no panicking Drop)
-                if s <= e && e <= len {
+                if let Some(l) = lie {
+                    self.count(if s > e || e > len {
+                        "splice-lie:bad-range"
+                    } else if l >= 1usize << 62 {
+                        if len == e { "splice-lie:overflow in extend/reserve" } else if n >= e - s { "splice-lie:overflow in move_tail" } else { "splice-lie:huge but the source runs dry in the range" }
+                    } else if l > n.saturating_sub(e - s) {
+                        if len == e { "splice-lie:over-report, extend" } else if n >= e - s { "splice-lie:over-report, fill short, tail moves back" } else { "splice-lie:over-report, source runs dry in the range" }
+                    } else {
+                        "splice-lie:fixed small number"
+                    });
+                } else if s <= e && e <= len {
                     let gap = e - s;
                     let lower_after_fill = n.saturating_sub(gap).min(hint);
                     self.count(if len == e {
@@ -335,10 +399,38 @@ impl Ctx {
                 } else {
                     self.count("splice:bad-range");
                 }
-                Op::Splice(s, e, ids, pulls, hint)
+                Op::Splice(s, e, ids, pulls, hint, lie)
             }
         };
         let _ = cap;
+        // the same operation through another route of the API now and then
+        let op = if kind != Kind::Boxed && self.rng.chance(1, 3) {
+            let route: Option<u8> = match &op {
+                Op::Push(_) => Some(1 + self.rng.below(3) as u8),
+                Op::Insert(..) => Some(1 + self.rng.below(2) as u8),
+                Op::Reserve(_) | Op::ExtendClone(_) | Op::Resize(..) | Op::ResizeWith(_) | Op::Append(_) => Some(1),
+                Op::ExtendWithinClone(..) if kind != Kind::Rev => Some(1),
+                Op::DedupBy if kind != Kind::Rev => Some(4),
+                _ => None,
+            };
+            match route {
+                Some(k) => {
+                    self.count(match k {
+                        1 => "route:try_ twin",
+                        2 => "route:push_mut/insert_mut",
+                        3 => "route:push_with",
+                        _ => "route:dedup()",
+                    });
+                    Op::Alt(k, Box::new(op))
+                }
+                None => op,
+            }
+        } else if kind == Kind::Boxed && op == Op::DedupBy && self.rng.chance(1, 3) {
+            self.count("route:dedup()");
+            Op::Alt(4, Box::new(op))
+        } else {
+            op
+        };
         // faults of the primary run: a panicking callback / a panicking Drop now and then
         // profile `std`: clean runs only (compared with std::vec::Vec); `drops` / `deep`: more faults
         let (pp, pb) = match self.profile.as_str() {
@@ -562,7 +654,9 @@ impl Ctx {
                     }
                 }
                 Kind::Bump | Kind::Mut | Kind::Rev => {
-                    if fits && !zst && !gone && !consuming && step.op != Op::ShrinkToFit && (post_cap != pre_cap || (post_addr != pre_addr && pre_cap != 0)) {
+                    // (a source that over-reports its length may make `splice` reserve more than it ends up using)
+                    let lying = matches!(&step.op, Op::Splice(_, _, _, _, _, Some(_)) | Op::ExtendIter(_, _, Some(_)) | Op::ShrinkTo(_));
+                    if fits && !lying && !zst && !gone && !consuming && step.op != Op::ShrinkToFit && (post_cap != pre_cap || (post_addr != pre_addr && pre_cap != 0)) {
                         self.oracle("C08", format!("{} `{optext}`: reallocated although len {pre_len} + {additional} <= capacity {pre_cap} (capacity {pre_cap} -> {post_cap}, address {pre_addr:#x} -> {:#x})", spec.kind.tok(), post_addr));
                     }
                 }
@@ -574,6 +668,13 @@ impl Ctx {
                         self.oracle("C08", format!("{} `{optext}` from len={pre_len} cap={pre_cap}: capacity {post_cap} afterwards is less than len + additional", spec.kind.tok()));
                     }
                 }
+                Op::ShrinkTo(n) if !zst => {
+                    // either nothing happened or the capacity is exactly max(len, min_capacity); never below the length
+                    let want = pre_len.max(*n);
+                    if post_cap != pre_cap && (post_cap != want || want >= pre_cap) || post_cap < post_len {
+                        self.oracle("C08", format!("bump `{optext}` from len={pre_len} cap={pre_cap}: capacity {post_cap} afterwards (allowed: {pre_cap} or max(len, min_capacity) = {want} when that is smaller)"));
+                    }
+                }
                 Op::ShrinkToFit if !zst => {
                     if post_cap > pre_cap || post_cap < post_len {
                         self.oracle("C08", format!("bump `{optext}` from len={pre_len} cap={pre_cap}: capacity {post_cap} afterwards", ));
@@ -583,6 +684,25 @@ impl Ctx {
             }
             if zst && !gone && spec.kind != Kind::Boxed && post_cap != usize::MAX {
                 self.oracle("C08", format!("{} of a zero-sized type `{optext}`: capacity {post_cap}, expected usize::MAX", spec.kind.tok()));
+            }
+            if bad_refs() > 0 && !zst {
+                self.oracle("C08", format!("{} `{optext}`: the reference returned by push_mut / insert_mut does not point at the slot the value went into", spec.kind.tok()));
+            }
+            // a later allocation from the same arena must not touch the vector (it would if the vector kept a stale
+            // buffer pointer, e.g. after a shrink that moved the block): always after the shrinking operations,
+            // now and then after the others
+            if !zst && !gone && spec.kind == Kind::Bump {
+                let always = matches!(&step.op, Op::ShrinkTo(_) | Op::ShrinkToFit | Op::Splice(..));
+                if always || self.rng.chance(1, 4) {
+                    if let Some(v) = cur.as_ref() {
+                        let pattern_ok = v.poke();
+                        let again = v.ids();
+                        self.count("arena-poked-and-reread");
+                        if again != post || corrupt() > 0 || !pattern_ok {
+                            self.oracle("C08", format!("bump `{optext}` from ids={}: the vector read ids={} right after the call, but ids={} after ANOTHER allocation from the same arena (the vector does not own the memory it points at)", csv(&pre), csv(&post), csv(&again)));
+                        }
+                    }
+                }
             }
             let clean = !step.oracle.contains(&Oc::Panic) && step.bombs.is_empty();
             if clean {
@@ -604,6 +724,53 @@ impl Ctx {
                             self.oracle("C08", format!("fixed `{optext}` from len={pre_len} cap={pre_cap}: needs {additional} more slots than the fixed capacity has, but ended with {exit}"));
                         } else if post != pre && !zst {
                             self.oracle("C08", format!("fixed `{optext}`: the refused call changed the contents {} -> {}", csv(&pre), csv(&post)));
+                        }
+                    }
+                    Ok((ret, _)) if matches!(&step.op, Op::Splice(_, _, _, _, _, Some(_)) | Op::ExtendIter(_, _, Some(_))) => {
+                        // a lying source: `Vec::splice` and the implementation may reserve at different moments, so one
+                        // may hit "capacity overflow" where the other does not.  Same outcome => same vector; otherwise
+                        // both must still be `head ++ (a prefix of the source) ++ tail` (what `Vec` guarantees after a
+                        // panic inside its `Splice::drop`).
+                        let (a, b, ids) = match &step.op {
+                            Op::Splice(a, b, ids, _, _, _) => (a, b, ids),
+                            Op::ExtendIter(ids, _, _) => (&pre_len, &pre_len, ids),
+                            _ => unreachable!(),
+                        };
+                        let std_panicked = ret.starts_with('!');
+                        let impl_panicked = exit == "panic";
+                        let prefix_form = |got: &[u64]| -> bool {
+                            (0..=ids.len()).any(|k| {
+                                let mut w: Vec<u64> = pre[..*a].to_vec();
+                                w.extend_from_slice(&ids[..k]);
+                                w.extend_from_slice(&pre[*b..]);
+                                w == got
+                            })
+                        };
+                        self.count(match (std_panicked, impl_panicked) {
+                            (false, false) => "splice-lie: both return",
+                            (true, true) => "splice-lie: both panic (capacity overflow)",
+                            (true, false) => "splice-lie: only std panics",
+                            (false, true) => "splice-lie: only the implementation panics",
+                        });
+                        if zst {
+                            if !impl_panicked && !std_panicked && post_len != sv.len() {
+                                self.oracle("C08", format!("zst {} `{optext}` from len={pre_len}: std gives len {}, implementation len {post_len}", spec.kind.tok(), sv.len()));
+                            }
+                        } else if exit == "panic:drop" {
+                            self.oracle("C08", format!("{} `{optext}`: a destructor panicked although none was told to", spec.kind.tok()));
+                        } else if !std_panicked && !impl_panicked {
+                            let want_exit = if ret.is_empty() { "ret".to_string() } else { format!("ret:{ret}") };
+                            if post != sv || exit != want_exit {
+                                self.oracle("C08", format!("{} `{optext}` from ids={}: std::vec::Vec gives ids={} {want_exit}, the implementation ids={} {exit}", spec.kind.tok(), csv(&pre), csv(&sv), csv(&post)));
+                            }
+                        } else if !prefix_form(&post) || !prefix_form(&sv) {
+                            // (both may panic at different moments: `Vec` reserves while pushing, the implementation up front)
+                            self.oracle("C08", format!("{} `{optext}` from ids={}: after the capacity-overflow panic the vector is ids={} (std: {}), not head ++ prefix of the source ++ tail", spec.kind.tok(), csv(&pre), csv(&post), csv(&sv)));
+                        }
+                        if impl_panicked && !zst && !prefix_form(&post) {
+                            // C07: a failed (here: capacity overflow inside `Splice::drop`) operation leaves valid contents
+                            self.oracle("C07", format!("{} `{optext}` from ids={}: the call unwound with a capacity overflow and left ids={} — an element was duplicated or lost (expected head ++ what was written ++ tail)", spec.kind.tok(), csv(&pre), csv(&post)));
+                            self.oracle("C08", format!("{} `{optext}` from ids={}: after the panic the vector is ids={}, not head ++ prefix of the source ++ tail", spec.kind.tok(), csv(&pre), csv(&post)));
                         }
                     }
                     Ok((ret, consumed)) => {
